@@ -1,5 +1,6 @@
 import Dashu.Proofs.Cross.Filter
 import Dashu.Model.Cross.Oracle
+import Dashu.Model.Cross.Pre
 import Mathlib.Data.Nat.Log
 /-
   C14 proofs — the comparison functions that use BIT LENGTHS as stand-ins for log₂
@@ -279,9 +280,9 @@ theorem int_exact_eq (x man exp : Int) :
     simp [h, this]
 
 /-- `NumOrd<f32/f64> for UBig` returns the order of the exact values outside defect class A -/
-theorem ubigNumOrdFloat_partial (t : FloatTy) (x : Nat) (d : Decoded) (hr : d.InRange t)
+theorem ubigNumOrdFloatPre_partial (t : FloatTy) (x : Nat) (d : Decoded) (hr : d.InRange t)
     (hA : ∀ man exp, d = .fin man exp → defectA (.nat x) man exp = false) :
-    ubigNumOrdFloat t x d = XVal.cmp (.fin (x : Int) 1) (decodedValue d) := by
+    ubigNumOrdFloatPre t x d = XVal.cmp (.fin (x : Int) 1) (decodedValue d) := by
   cases d with
   | nan => rfl
   | inf neg => cases neg <;> rfl
@@ -289,9 +290,9 @@ theorem ubigNumOrdFloat_partial (t : FloatTy) (x : Nat) (d : Decoded) (hr : d.In
     have hA' := hA man exp rfl
     have hr' : (bitLen man.natAbs : Int) + exp ≤ t.maxExp := hr
     have hd2 := floatFrac_den_pos (le_refl 2) man exp
-    show ubigNumOrdFloat t x (.fin man exp) = some (compare ((x : Int) * ((floatFrac 2 man exp).2 : Int))
+    show ubigNumOrdFloatPre t x (.fin man exp) = some (compare ((x : Int) * ((floatFrac 2 man exp).2 : Int))
       ((floatFrac 2 man exp).1 * ((1 : Nat) : Int)))
-    unfold ubigNumOrdFloat
+    unfold ubigNumOrdFloatPre
     dsimp only
     by_cases h0 : man = 0
     · subst h0
@@ -327,15 +328,15 @@ theorem ubigNumOrdFloat_partial (t : FloatTy) (x : Nat) (d : Decoded) (hr : d.In
         · intro h; rw [decFrac_mag]; exact s3 h
 
 /-- `NumOrd<f32/f64> for IBig` returns the order of the exact values outside defect classes A, F -/
-theorem ibigNumOrdFloat_partial (t : FloatTy) (x : Int) (d : Decoded) (hr : d.InRange t)
+theorem ibigNumOrdFloatPre_partial (t : FloatTy) (x : Int) (d : Decoded) (hr : d.InRange t)
     (hA : ∀ man exp, d = .fin man exp → defectA (.int x) man exp = false)
     (hF : ∀ neg, d = .inf neg → defectF (.int x) neg = false) :
-    ibigNumOrdFloat t x d = XVal.cmp (.fin x 1) (decodedValue d) := by
+    ibigNumOrdFloatPre t x d = XVal.cmp (.fin x 1) (decodedValue d) := by
   cases d with
   | nan => rfl
   | inf neg =>
     have hF' := hF neg rfl
-    unfold ibigNumOrdFloat
+    unfold ibigNumOrdFloatPre
     by_cases hx : x < 0
     · have hn : neg = false := by simpa [defectF, hx] using hF'
       subst hn
@@ -347,9 +348,9 @@ theorem ibigNumOrdFloat_partial (t : FloatTy) (x : Int) (d : Decoded) (hr : d.In
     have hA' := hA man exp rfl
     have hr' : (bitLen man.natAbs : Int) + exp ≤ t.maxExp := hr
     have hd2 := floatFrac_den_pos (le_refl 2) man exp
-    show ibigNumOrdFloat t x (.fin man exp) = some (compare (x * ((floatFrac 2 man exp).2 : Int))
+    show ibigNumOrdFloatPre t x (.fin man exp) = some (compare (x * ((floatFrac 2 man exp).2 : Int))
       ((floatFrac 2 man exp).1 * ((1 : Nat) : Int)))
-    unfold ibigNumOrdFloat
+    unfold ibigNumOrdFloatPre
     dsimp only
     by_cases h0 : man = 0
     · subst h0
@@ -508,10 +509,10 @@ theorem rat_exact_eq (n : Int) (dn : Nat) (man exp : Int) :
   · simp [h]; congr 1; ring
 
 /-- `NumOrd<f32/f64> for RBig/Relaxed` returns the order of the exact values outside defect class A -/
-theorem ratNumOrdFloat_partial (t : FloatTy) (n : Int) {dn : Nat} (hd : 0 < dn) (d : Decoded)
+theorem ratNumOrdFloatPre_partial (t : FloatTy) (n : Int) {dn : Nat} (hd : 0 < dn) (d : Decoded)
     (hr : d.InRange t)
     (hA : ∀ man exp, d = .fin man exp → defectA (.rat true n dn) man exp = false) :
-    ratNumOrdFloat t n dn d = XVal.cmp (.fin n dn) (decodedValue d) := by
+    ratNumOrdFloatPre t n dn d = XVal.cmp (.fin n dn) (decodedValue d) := by
   cases d with
   | nan => rfl
   | inf neg => cases neg <;> rfl
@@ -519,9 +520,9 @@ theorem ratNumOrdFloat_partial (t : FloatTy) (n : Int) {dn : Nat} (hd : 0 < dn) 
     have hA' := hA man exp rfl
     have hr' : (bitLen man.natAbs : Int) + exp ≤ t.maxExp := hr
     have hd2 := floatFrac_den_pos (le_refl 2) man exp
-    show ratNumOrdFloat t n dn (.fin man exp) = some (compare (n * ((floatFrac 2 man exp).2 : Int))
+    show ratNumOrdFloatPre t n dn (.fin man exp) = some (compare (n * ((floatFrac 2 man exp).2 : Int))
       ((floatFrac 2 man exp).1 * (dn : Int)))
-    unfold ratNumOrdFloat
+    unfold ratNumOrdFloatPre
     dsimp only
     by_cases h0 : man = 0
     · subst h0
@@ -640,19 +641,19 @@ theorem repr_exact_eq (B : Nat) (s e man exp : Int) :
   unfold floatFrac shlDigits
   by_cases h1 : e < 0 <;> by_cases h2 : exp < 0 <;> (simp [h1, h2]; try (congr 1; ring))
 
-/-- the finite case of `reprNumOrdFloat_partial` -/
-theorem reprNumOrdFloat_fin (t : FloatTy) {B : Nat} (hB : 2 ≤ B) (s e : Int) (p : Nat) (man exp : Int)
+/-- the finite case of `reprNumOrdFloatPre_partial` -/
+theorem reprNumOrdFloatPre_fin (t : FloatTy) {B : Nat} (hB : 2 ≤ B) (s e : Int) (p : Nat) (man exp : Int)
     (hinf : fIsInf s e = false)
     (hr : (bitLen man.natAbs : Int) + exp ≤ t.maxExp)
     (hA : defectA (.flt B s e p) man exp = false) :
-    reprNumOrdFloat t B s e (.fin man exp)
+    reprNumOrdFloatPre t B s e (.fin man exp)
       = some (compare ((floatFrac B s e).1 * ((floatFrac 2 man exp).2 : Int))
                 ((floatFrac 2 man exp).1 * ((floatFrac B s e).2 : Int))) := by
   have hd1 := floatFrac_den_pos hB s e
   have hd2 := floatFrac_den_pos (le_refl 2) man exp
   have hse : s = 0 → e = 0 := by
     intro hs; subst hs; simpa [fIsInf] using hinf
-  unfold reprNumOrdFloat
+  unfold reprNumOrdFloatPre
   dsimp only
   rw [fSign_fin hinf, hinf]
   by_cases h0 : man = 0
@@ -705,26 +706,26 @@ theorem reprNumOrdFloat_fin (t : FloatTy) {B : Nat} (hB : 2 ≤ B) (s e : Int) (
           exact lt_of_lt_of_le f2 (le_trans (two_zpow_mono (by omega)) hlo)
 
 /-- `NumOrd<f32/f64> for FBig/Repr<B>` returns the order of the exact values outside defect class A -/
-theorem reprNumOrdFloat_partial (t : FloatTy) {B : Nat} (hB : 2 ≤ B) (s e : Int) (p : Nat) (d : Decoded)
+theorem reprNumOrdFloatPre_partial (t : FloatTy) {B : Nat} (hB : 2 ≤ B) (s e : Int) (p : Nat) (d : Decoded)
     (hr : d.InRange t)
     (hA : ∀ man exp, d = .fin man exp → defectA (.flt B s e p) man exp = false) :
-    reprNumOrdFloat t B s e d = XVal.cmp (Num.fbig B s e p).value (decodedValue d) := by
+    reprNumOrdFloatPre t B s e d = XVal.cmp (Num.fbig B s e p).value (decodedValue d) := by
   cases hinf : fIsInf s e
   · rw [fbig_value_fin p hinf]
     cases d with
     | nan => rfl
     | inf neg =>
-      unfold reprNumOrdFloat
+      unfold reprNumOrdFloatPre
       dsimp only
       rw [fSign_fin hinf, hinf]
       by_cases hs : s < 0
       · rw [Sign.ofInt_neg.2 hs]; cases neg <;> rfl
       · rw [Sign.ofInt_pos.2 (by omega)]; cases neg <;> rfl
-    | fin man exp => exact reprNumOrdFloat_fin t hB s e p man exp hinf hr (hA man exp rfl)
+    | fin man exp => exact reprNumOrdFloatPre_fin t hB s e p man exp hinf hr (hA man exp rfl)
   · rw [fbig_value_inf p hinf]
     have hs : s = 0 ∧ e ≠ 0 := by simpa [fIsInf] using hinf
     obtain ⟨rfl, he⟩ := hs
-    unfold reprNumOrdFloat
+    unfold reprNumOrdFloatPre
     cases d with
     | nan => by_cases h : e > 0 <;> simp [h, XVal.cmp, decodedValue]
     | inf neg =>
@@ -875,8 +876,8 @@ theorem ratReprEq_spec (abs : Bool) (n1 : Int) {d1 : Nat} (h1 : 0 < d1) (n2 : In
 -- ------------------------------------------------------------------ 8. the defect hypotheses are needed
 
 /-- defect A (UBig): `0` against `2^-5` answers `Greater`; the exact order is `Less` -/
-theorem ubigNumOrdFloat_counterexample :
-    ubigNumOrdFloat .f64 0 (.fin (2 ^ 52) (-57)) = some .gt ∧
+theorem ubigNumOrdFloatPre_counterexample :
+    ubigNumOrdFloatPre .f64 0 (.fin (2 ^ 52) (-57)) = some .gt ∧
       XVal.cmp (.fin 0 1) (decodedValue (.fin (2 ^ 52) (-57))) = some .lt ∧
       defectA (.nat 0) (2 ^ 52) (-57) = true ∧ (Decoded.fin (2 ^ 52) (-57)).InRange .f64 := by
   refine ⟨by decide, by decide, by decide, ?_⟩
@@ -884,8 +885,8 @@ theorem ubigNumOrdFloat_counterexample :
   decide
 
 /-- defect A (IBig): `0` against `2^-5` answers `Greater`; the exact order is `Less` -/
-theorem ibigNumOrdFloat_counterexample :
-    ibigNumOrdFloat .f64 0 (.fin (2 ^ 52) (-57)) = some .gt ∧
+theorem ibigNumOrdFloatPre_counterexample :
+    ibigNumOrdFloatPre .f64 0 (.fin (2 ^ 52) (-57)) = some .gt ∧
       XVal.cmp (.fin 0 1) (decodedValue (.fin (2 ^ 52) (-57))) = some .lt ∧
       defectA (.int 0) (2 ^ 52) (-57) = true ∧ (Decoded.fin (2 ^ 52) (-57)).InRange .f64 := by
   refine ⟨by decide, by decide, by decide, ?_⟩
@@ -893,29 +894,29 @@ theorem ibigNumOrdFloat_counterexample :
   decide
 
 /-- defect F (IBig): `5` against `+∞` answers `Greater`; the exact order is `Less` -/
-theorem ibigNumOrdFloat_inf_counterexample :
-    ibigNumOrdFloat .f64 5 (.inf false) = some .gt ∧
+theorem ibigNumOrdFloatPre_inf_counterexample :
+    ibigNumOrdFloatPre .f64 5 (.inf false) = some .gt ∧
       XVal.cmp (.fin 5 1) (decodedValue (.inf false)) = some .lt ∧
       defectF (.int 5) false = true := by
   decide
 
 /-- defect F (IBig), negative side: `-5` against `-∞` answers `Less`; the exact order is `Greater` -/
-theorem ibigNumOrdFloat_ninf_counterexample :
-    ibigNumOrdFloat .f64 (-5) (.inf true) = some .lt ∧
+theorem ibigNumOrdFloatPre_ninf_counterexample :
+    ibigNumOrdFloatPre .f64 (-5) (.inf true) = some .lt ∧
       XVal.cmp (.fin (-5) 1) (decodedValue (.inf true)) = some .gt ∧
       defectF (.int (-5)) true = true := by
   decide
 
 /-- defect A (FBig): the zero float against `2^-5` answers `Greater`; the exact order is `Less` -/
-theorem reprNumOrdFloat_counterexample :
-    reprNumOrdFloat .f64 2 0 0 (.fin (2 ^ 52) (-57)) = some .gt ∧
+theorem reprNumOrdFloatPre_counterexample :
+    reprNumOrdFloatPre .f64 2 0 0 (.fin (2 ^ 52) (-57)) = some .gt ∧
       XVal.cmp (Num.fbig 2 0 0 53).value (decodedValue (.fin (2 ^ 52) (-57))) = some .lt ∧
       defectA (.flt 2 0 0 53) (2 ^ 52) (-57) = true := by
   decide
 
 /-- defect A (RBig/Relaxed): `0/1` against `2^-5` answers `Greater`; the exact order is `Less` -/
-theorem ratNumOrdFloat_counterexample :
-    ratNumOrdFloat .f64 0 1 (.fin (2 ^ 52) (-57)) = some .gt ∧
+theorem ratNumOrdFloatPre_counterexample :
+    ratNumOrdFloatPre .f64 0 1 (.fin (2 ^ 52) (-57)) = some .gt ∧
       XVal.cmp (.fin 0 1) (decodedValue (.fin (2 ^ 52) (-57))) = some .lt ∧
       defectA (.rat true 0 1) (2 ^ 52) (-57) = true := by
   decide
@@ -926,8 +927,8 @@ theorem defectA_rat_flag (b : Bool) (n : Int) (dn : Nat) (man exp : Int) :
 
 /-- the range hypothesis is needed as well: against an (undecodable) `1·2^200` step 3 answers
     `Greater` for `2^160`; it is only sound because every decoded f32/f64 is below `2^MAX_EXP` -/
-theorem ubigNumOrdFloat_range_counterexample :
-    ubigNumOrdFloat .f32 (2 ^ 160) (.fin 1 200) = some .gt ∧
+theorem ubigNumOrdFloatPre_range_counterexample :
+    ubigNumOrdFloatPre .f32 (2 ^ 160) (.fin 1 200) = some .gt ∧
       XVal.cmp (.fin ((2 ^ 160 : Nat) : Int) 1) (decodedValue (.fin 1 200)) = some .lt ∧
       defectA (.nat (2 ^ 160)) 1 200 = false := by
   decide
